@@ -197,6 +197,9 @@ def rejected_calls(w, rng):
             out.append('pvalues %s %s' % (p.slot, lst(['Bool:%d' % (k % 2) for k in range(n)])))
             other = 'Double' if dt != 'Double' else 'Int32'
             out.append('pvalues %s %s' % (p.slot, lst([('Double:' + f64(float(k))) if other == 'Double' else 'Int32:%d' % k for k in range(n)])))
+    # createProperty(name, values) without a value
+    for s_ in w.alive('S')[:3]:
+        out.append('mkpv $x %s %s []' % (s_.slot, S('fresh-empty')))
     for t in w.alive(['T', 'M'])[:2]:
         out.append('set %s units %s' % (t.slot, lst([S('m/s')])))
     for p in w.alive('P')[:3]:
